@@ -93,6 +93,19 @@ func ProcessSchedPart(run *report.Run, st *Setup, n int, kinds map[string]bool) 
 				t.Outs = append(t.Outs, spec.Out{Kind: "dir", Path: fmt.Sprintf("sub%d.d", k)})
 			}
 		}
+		// the same dependency listed twice by a target (grog accepts that): it is still one
+		// dependency, and the target still runs once
+		for _, t := range s.Targets {
+			if len(t.Deps) > 0 && r.Chance(1, 4) {
+				d := t.Deps[r.Intn(len(t.Deps))]
+				if r.Chance(1, 2) {
+					t.Deps = append(t.Deps, d)
+				} else {
+					t.Deps = append([]string{d}, t.Deps...)
+				}
+				run.Count("targets_listing_a_dependency_twice", 1)
+			}
+		}
 		gcfg := randCfg(r)
 		gcfg.NumWorkers = r.Range(1, 8)
 		if i%6 == 5 {
